@@ -434,10 +434,18 @@ func (g *gen) payload(depth int) (string, *V) {
 		case 1:
 			return "val", &V{K: "nilptr", Elem: g.strct(1)}
 		case 2:
-			return "val", &V{K: "str", C: g.can()} // a string by value cannot be redacted: error
+			// a string or []byte by value cannot be set: error, nothing forwarded
+			if g.r.Bool() {
+				return "val", &V{K: "bytes", C: g.can()}
+			}
+			return "val", &V{K: "str", C: g.can()}
 		default:
 			return "rotate", nil
 		}
+	case 22:
+		// a struct handed over BY VALUE (outside G for the no-leak theorem: its own strings cannot be set; what it refers
+		// to is still filtered, in the private copy only)
+		return "val", g.strct(depth)
 	default:
 		return "val", &V{K: "ptr", Elem: g.strct(depth)}
 	}
